@@ -260,6 +260,28 @@ def check_graph(k, g, lines, label=""):
         k.check(e.vertices is not None and all(a is by_id[i] for a, i in zip(e.vertices, e.vertex_ids)), label + "edges bound to the vertices they name")
 
 
+def state_arrays(k, g):
+    out = []
+    for i, v in enumerate(g._vertices):
+        out.append(("pose:vertex %d" % i, v.pose))
+    for j, e in enumerate(g._edges):
+        out.append(("information:edge %d" % j, e.information))
+        if hasattr(e.estimate, "shape") and getattr(e.estimate, "shape", ()) != ():
+            out.append(("estimate:edge %d" % j, e.estimate))
+        if getattr(e, "offset", None) is not None:
+            out.append(("offset:edge %d" % j, e.offset))
+    for key, p_ in (g._g2o_params or {}).items():
+        if hasattr(p_.value, "shape"):
+            out.append(("parameter:%s" % (key,), p_.value))
+    return out
+
+
+def shares(k, a, b):
+    if k.mode == "sym":
+        return a._st is b._st
+    return bool(k.np.shares_memory(a, b))
+
+
 def obligations(r, tier, seed):
     obs = []
     seps = [" ", "  ", " \t "]
@@ -280,6 +302,37 @@ def obligations(r, tier, seed):
                 k.check(not warnings_, "no warning for a file of supported lines", warnings_[:2])
             obs.append(Ob("C14/all-tags/sep%d/eol%d%s" % (si, ei, "" if last else "-noeol"), plain, scope="shape-bounded",
                           bound="13-line file, separator %r, line end %r" % (sep, eol), funcs=FUNCS, light=True))
+
+    # ---- "carries exactly the numbers on that line" must stay true: the arrays of the loaded objects are the objects' own.  No two
+    #      of them share storage (except the documented sharing: an SE(3) landmark edge's offset IS its parameter's value), none
+    #      is shared with an object of an earlier load, and writing into one changes no other -- so a later load of the same
+    #      file still yields the numbers on its lines.
+    def own_storage(k):
+        lines = standard_lines(k)
+        extra = gen_line(k, "EDGE_SE2_XY", [-4, ID_XY], "e1b")
+        lines.insert(10, extra)
+        path = write_file([l.text() for l in lines])
+        try:
+            g1, _ = load(k, path)
+            arrays1 = state_arrays(k, g1)
+            # scribble over every array of the first load
+            for name, a in arrays1:
+                a[...] = 99
+            g2, _ = load(k, path)
+        finally:
+            os.unlink(path)
+        arrays2 = state_arrays(k, g2)
+        for i, (n1, a1) in enumerate(arrays1):
+            for n2, a2 in arrays1[i + 1:]:
+                if not shares(k, a1, a2):
+                    continue
+                documented = {n1.split(":")[0], n2.split(":")[0]} == {"offset", "parameter"}
+                k.check(documented, "within one load: %s and %s do not share storage" % (n1, n2))
+        for n1, a1 in arrays1:
+            for n2, a2 in arrays2:
+                k.check(not shares(k, a1, a2), "%s of the first load and %s of the second load do not share storage" % (n1, n2))
+        check_graph(k, g2, lines, "after the objects of an earlier load were overwritten: ")
+    obs.append(Ob("C14/loaded-objects-own-their-arrays", own_storage, scope="shape-bounded", bound="14-line file, loaded twice", funcs=FUNCS, light=True))
 
     # ---- junk / blank lines at every position
     for pos in range(0, 14, (1 if tier == "thorough" else 3)):
